@@ -75,6 +75,7 @@ package imports
 //@   loop 2: invariant lo(content) <= lo(p) && hi(p) <= hi(content) && cap(p) >= len(p)
 //@   loop 2: decreases len(p)
 //@   loop 3: invariant -1 <= rangeindex
+//@   at call imports.matchTags#1: requires len(f) >= 1 && at(f, lo(f)) == "+build"
 
 // ---- C18: the import reader (read.go) ----
 // Ghost input (see /verif/specs/io.spec): gIn[0..gLen) is the input, gPos the read position.
